@@ -152,9 +152,17 @@ class Gen:
             if any(x != 0 for x in av):
                 self.has_dimensional_fun_arg = True
             f = Function("f", [arg], dimension_from_vec(vec, Fraction(0), rng))
-            if rng.random() < 0.4:
+            if rng.random() < 0.5:
                 self.has_deriv = True
                 n = rng.choice([1, 1, 2])
+                if rng.random() < 0.5:
+                    # mixed partial over two DISTINCT variables, half of the time of the SAME dimension
+                    bv = av if rng.random() < 0.5 else rand_dimvec(rng)[0]
+                    arg2 = self.symbol(bv)
+                    m = rng.choice([1, 1, 2])
+                    tot = tuple(x + n * y + m * z for x, y, z in zip(vec, av, bv))
+                    g = Function("g", [arg, arg2], dimension_from_vec(tot, Fraction(0), rng))
+                    return Derivative(g(arg, arg2), (arg, n), (arg2, m))
                 # d^n f / d arg^n has dimension vec - n*av; compensate so the node has dimension vec
                 g = Function("g", [arg], dimension_from_vec(tuple(x + n * y for x, y in zip(vec, av)), Fraction(0), rng))
                 return Derivative(g(arg), (arg, n))
@@ -185,6 +193,10 @@ def boundary(rng):
         lambda: Min(zl, t, q5s, evaluate=False),
         lambda: Max(0, x, Quantity(3 * units.meter), evaluate=False),
         lambda: 0 + x,
+        lambda: Max(0, x, evaluate=False),
+        lambda: Min(0, x, evaluate=False),
+        lambda: Max(zl, x, Quantity(2 * units.meter), evaluate=False),
+        lambda: Min(zs, t, q5s, evaluate=False) * x,
         lambda: Add(0, x, evaluate=False),
         lambda: Add(2, x, evaluate=False),    # non-zero number + length: refused
         lambda: x**t,                         # dimensional exponent
@@ -293,7 +305,7 @@ def value_equal(expr, out, rng) -> bool | None:
         for s in syms:
             if isinstance(s, SymQuantity):
                 continue
-            env[s] = Rational(rng.randrange(1, 9), rng.randrange(1, 5))
+            env[s] = Rational(rng.choice([-1, 1]) * rng.randrange(1, 9), rng.randrange(1, 5))
         def ev(e):
             e = e.subs(env)
             for q in e.atoms(SymQuantity):
@@ -387,7 +399,7 @@ def run(ctx):
         key = (stream, "ok" if obs[0] == "ok" else f"err{obs[1]}")
         hist[key] = hist.get(key, 0) + 1
         # dynamic supplements on the implementation (tests)
-        if obs[0] == "ok" and len(cases) % 4 == 0:
+        if obs[0] == "ok" and (len(cases) % 4 == 0 or stream == "boundary"):
             try:
                 ve = value_equal(sympy.sympify(expr), sympy.sympify(out), rng)
             except Exception:  # pylint: disable=broad-except
